@@ -33,7 +33,10 @@ func runC16(c *Check) {
 
 	// ---- R1: registry
 	preserved := map[string]bool{}
-	reg := dp.Func(jsonrpcPkg + ".getKnownErrorsMapping")
+	var reg *ssa.Function
+	for _, f := range funcsCalling(dp, jsonrpcPkg, func(n string) bool { return strings.HasSuffix(n, "go-jsonrpc.Errors).Register") }) {
+		reg = f
+	}
 	nReg := 0
 	if reg == nil {
 		c.Unk("C16-R1", "registry", "", "", "anchor lost: getKnownErrorsMapping")
@@ -347,7 +350,24 @@ func runC16(c *Check) {
 	// ---- R4 pass-through
 	methods := []string{"Get", "GetIDs", "GetProofs", "Commit", "Validate", "Submit", "SubmitWithOptions", "GasPrice", "GasMultiplier"}
 	for _, m := range methods {
-		sfn := dp.Func("(*" + jsonrpcPkg + ".serverInternalAPI)." + m)
+		var sfn *ssa.Function
+		for _, f := range dp.Funcs {
+			pk := fnPkg(f)
+			if pk == nil || pk.Pkg.Path() != jsonrpcPkg || f.Parent() != nil || f.Name() != m || f.Signature.Recv() == nil {
+				continue
+			}
+			if strings.HasSuffix(f.Signature.Recv().Type().String(), ".API") {
+				continue // the client
+			}
+			// the server side: it invokes the DA interface
+			for _, b := range f.Blocks {
+				for _, in := range b.Instrs {
+					if call, ok := in.(*ssa.Call); ok && call.Common().IsInvoke() && strings.Contains(call.Common().Method.FullName(), "core/da.DA).") {
+						sfn = f
+					}
+				}
+			}
+		}
 		if sfn == nil {
 			c.Unk("C16-R4", "server."+m, "", "", "anchor lost: server method")
 			continue
